@@ -1,6 +1,6 @@
 import logging
 from functools import wraps
-from threading import Lock
+from threading import RLock
 from contextlib import contextmanager
 
 from .logwrap import LogWrapper
@@ -24,7 +24,10 @@ def executor_loop(fn):
 
 class ShutdownHelper(object):
     def __init__(self):
-        self._lock = Lock()
+        # Re-entrant: the lock is held for the whole of submit(), which may
+        # run user code on this very thread (synchronous executors, map
+        # functions, done callbacks) and that code may submit again.
+        self._lock = RLock()
         self.is_shutdown = False
 
     @contextmanager
